@@ -5,9 +5,10 @@ import stlsworld as W
 from stlsworld import Case
 
 REQUIRED = ['sync_is_first_step', 'starttls_row', 'ssl_only_by_handshake', 'lookahead_empty_at_success', 'ssl_stays',
-            'clear_wire_irrelevant_after_success', 'no_cleartext_survives', 'pipelined_suffix_refused', 'wait_for_quit_inert',
+            'clear_wire_irrelevant_after_success', 'no_cleartext_survives', 'tls_commands_exact', 'pipelined_suffix_refused', 'wait_for_quit_inert',
             'state_reset', 'mail_requires_new_greeting', 'starttls_when', 'starttls_refused_inside_tls',
-            'starttls_refused_without_esmtp', 'offer_iff_certificate', 'failed_handshake_inert', 'no_tls_without_handshake']
+            'starttls_refused_without_esmtp', 'offer_iff_certificate', 'failed_handshake_inert', 'no_tls_without_handshake',
+            'servercert_variant_is_repaired', 'find_servercert_no_fault', 'find_servercert_spec', 'second_ehlo_overflows']
 
 CORR = {
     'cert': 'model QsmtpModel.StartTlsCert.findServercert vs qsmtpd/starttls.c:find_servercert (through EHLO/STARTTLS of the whole server: announcement, memory faults, certificate presented)',
@@ -157,7 +158,8 @@ def gen_script(ctx):
         for ln in lines:
             if len(ln) > 500:
                 # long runs only where the line buffer is empty: behind a complete line and a pause
-                if not prev.endswith(b'\n') or b'\n' in prev[:-1].replace(CR, b''):
+                # (and not where a handshake would take the first bytes of the run away)
+                if not prev.endswith(b'\n') or b'\n' in prev[:-1].replace(CR, b'') or b'starttls' in prev.lower():
                     continue
                 if clear[-1] != WT:
                     clear.append(WT)
@@ -170,6 +172,10 @@ def gen_script(ctx):
         if rng.random() < 0.7:
             clear.append(WT)
         add(Case('script', clear=clear, hs=['g'] * 8, clean=False), 'malformed')
+    # wait_for_quit() compares whatever is in the line buffer: a NUL ends the C string, a failed read leaves stale data
+    for q in (b'QUIT\x00\n', b'QUIT\x00x\r\n', b'quit\r\n', b'QUIT \r\n', b'QUITX\r\n', b'\n', b'x\nQUIT\r\n'):
+        for pre in ([S(NOOP + VRFY), WT], [S(STLS + VRFY), WT], [S(NOOP), S(VRFY), WT]):
+            add(Case('script', clear=[WT] + lock([EHLO]) + pre + [S(q), WT] + lock([VRFY, QUIT]), hs=['g'] * 2, clean=False), 'wait-for-quit')
     # (e) behind the thresholds: STARTTLS right behind a discarded over-long line / at the buffer end
     for fill in (990, 991, 992, 997, 998, 999, 1000, 1001, 1002, 1003, 2001, 2002, 2003):
         for sep in (b'', CR, b'\n'):
@@ -190,7 +196,7 @@ def gen_tls(ctx):
     # history x handshake outcome x what is said inside TLS
     for hn, hist in HISTORIES.items():
         for cn, cont in TLS_CONT.items():
-            if quick and rng.random() < 0.6:
+            if quick and rng.random() < 0.3:
                 continue
             add(Case('tls', clear=[WT] + lock(hist + [STLS]), hs=['o'], tls=lock(cont)), 'handshake-ok')
     # the CVE-2011-0411 pattern: clear text behind STARTTLS, then a client that goes on with the handshake
@@ -199,7 +205,7 @@ def gen_tls(ctx):
             if suf.endswith(DATA):
                 suf = suf[:-len(DATA)]       # a client that waits for the reply to its message would meet the server's time-out
             for place in ('same', 'next'):
-                if quick and rng.random() < 0.5:
+                if quick and rng.random() < 0.25:
                     continue
                 mid = [S(STLS + suf), WT] if place == 'same' else [S(STLS), S(suf), WT]
                 clean = suf.endswith(CR) and suf[:1] != b'\x16'
@@ -221,10 +227,18 @@ def gen_tls(ctx):
     for cert in W.CERT_KINDS:
         for port in ('25', '465') if cert in ('u', 'n') else ('25',):
             add(Case('tls', cert=cert, port=port, clear=[WT] + lock([EHLO, STLS, EHLO, QUIT]), hs=['o'], tls=lock([EHLO, STLS, QUIT])), 'cert:%s' % cert)
+    # the HELO name given before the handshake must not reach the Received: line of a message sent inside TLS
+    for g1 in (b'EHLO pre.tls.example\r\n',):
+        for g2 in (b'EHLO in.tls.example\r\n', b'HELO in.tls.example\r\n'):
+            add(Case('tls', clear=[WT] + lock([g1, STLS]), hs=['o'], tls=lock([g2, MAIL, RALICE, DATA, MSG, QUIT])), 'helo-name')
     # records: several lines in one record, a line across records, pipelining inside TLS
     for tls in ([S(EHLO + MAIL + RALICE), WT, S(QUIT), WT], [S(b'EH'), S(b'LO client.example\r'), S(b'\n'), WT, S(NOOP + QUIT), WT],
                 [S(NOOP), S(VRFY), WT, S(QUIT), WT], [S(EHLO), WT, S(MAIL), WT, S(RALICE), WT, S(DATA + MSG), WT, S(QUIT), WT]):
         add(Case('tls', clear=[WT] + lock([EHLO, STLS]), hs=['o'], tls=tls, clean=False), 'records')
+    # a record longer than one read of the line reader: SSL_pending() > 0 with an empty look-ahead buffer
+    big = b'VRFY ' + b'a' * 988 + CR           # 995 bytes, answered "line too long"
+    for tail in (NOOP + VRFY, NOOP + b'x' * 3 + CR, NOOP):
+        add(Case('tls', clear=[WT] + lock([EHLO, STLS]), hs=['o'], tls=[S(EHLO), WT, S(big + tail), WT, S(QUIT), WT], clean=False), 'records-long')
     if not quick:
         for _ in range(300):
             hist = rng.choice(list(HISTORIES.values()))
@@ -381,6 +395,9 @@ def compare_tls(case, r, evs):
     ih = [h for h in r['handoffs'] if h]
     if mh != ih:
         return 'hand-offs: impl=%s model=%s' % (ih, mh)
+    if case.tag == 'helo-name':
+        if len(r['msgs']) != 1 or b'pre.tls.example' in r['msgs'][0] or b'in.tls.example' not in r['msgs'][0]:
+            return 'HELO name of the clear-text phase in the message queued inside TLS: %r' % (r['msgs'][:1],)
     # the state when the server last blocked = the model's state before the event that ended the session
     if r['states'] and len(evs) >= 2:
         got = state_of_t(r['states'][-1])
@@ -488,7 +505,7 @@ def run(ctx):
         job(ctx, 'tls', binary, pki, gen_tls(ctx))
         job(ctx, 'cert', binary, pki, gen_cert(ctx))
     if not ctx.quick():
-        vlib.leanchecker(ctx, ['QsmtpModel.Props.C17', 'QsmtpModel.Lemmas.StartTlsSrv'])
+        vlib.leanchecker(ctx, ['QsmtpModel.Props.C17', 'QsmtpModel.Lemmas.StartTlsSrv', 'QsmtpModel.Lemmas.StartTlsSrvTls', 'QsmtpModel.Lemmas.StartTlsCert'])
     return vlib.finish(ctx, assumptions=[
         'OpenSSL: SSL_accept() either completes a handshake with the peer or fails; what it reads from the socket meanwhile is handshake data (oracle HsV with the number of clear-text bytes taken)',
         'after a completed handshake SSL_read() returns only plaintext the peer sent inside the TLS session (the second wire of the model)',
